@@ -208,7 +208,9 @@ func (d *Desc) validate(ctx int, depth int) error {
 		}
 		return nil
 	case KStruct:
-		if len(d.Fields) > 40 {
+		// 40 fields per nested struct; the top-level struct may be wide (sub-property wide: 65-84 fields, so
+		// that field positions beyond a machine word are exercised)
+		if len(d.Fields) > 40 && (depth > 0 || len(d.Fields) > 100) {
 			return fmt.Errorf("too many fields")
 		}
 		seen := map[[2]uint64]bool{}
